@@ -1146,3 +1146,30 @@ Proof.
   simpl. destruct (vgpr_pass _ _ _ _ _) as [[sims nxt] [vs|]]; [|discriminate].
   rewrite Hk. discriminate.
 Qed.
+
+(** * Conservation *)
+
+(** when no work-group is resident the occupancy is the initial one *)
+Lemma conserved_when_empty : forall c s, Inv c s -> resident s = [] ->
+  smask s = smask (init_cu c) /\ lmask s = lmask (init_cu c) /\ simds s = simds (init_cu c).
+Proof. intros c s HI Hr. apply (inv_determined c s (init_cu c) HI (init_inv c)). exact Hr. Qed.
+
+Definition with_dyn (d : demand) (x : N) : demand := mkDemand (d_nwf d) (d_sgpr d) (d_vgpr d) (d_lds d) x.
+
+(** the LDS size of the dispatch packet plays no role in what is reserved *)
+Lemma reserve_ignores_dyn : forall s k d x,
+  match reserve s k d, reserve s k (with_dyn d x) with
+  | Crash, Crash => True
+  | Ret s1 r1, Ret s2 r2 =>
+    r1 = r2 /\ smask s1 = smask s2 /\ lmask s1 = lmask s2 /\ simds s1 = simds s2 /\ next_simd s1 = next_simd s2 /\
+    map fst (resident s1) = map fst (resident s2)
+  | _, _ => False
+  end.
+Proof.
+  intros s k d x. unfold reserve, with_dyn. simpl.
+  destruct (sgpr_pass _ _ _) as [sm [soffs|]]; simpl; [|repeat split; auto].
+  destruct (next_region (lmask s) _ SFree) as [loff|]; simpl; [|repeat split; auto].
+  destruct (_ && _); [exact I|].
+  destruct (vgpr_pass _ _ _ _ _) as [[sims nxt] [vs|]]; simpl; [|repeat split; auto].
+  destruct (lookup k (resident s)); [exact I|]. simpl. repeat split; auto.
+Qed.
